@@ -26,10 +26,10 @@ CONC_NOTE = ("Trusted: TLC, the import-substitution instrumenter, the cooperativ
              "Explored: the listed scenario families x dfs(preemption bound)/PCT/random schedules; every distinct history is decided by TLC (linearization search).")
 
 CLAIMED.update({
-    "C02": dict(technique="TLA+ CacheLin (linearizability w.r.t. CacheSem with DERemove/eviction-queue steps); real-code histories from a deterministic cooperative scheduler (dfs preemption-bounded, PCT) validated by TLC trace validation with searched linearization points",
+    "C02": dict(technique="TLA+ CacheLin (linearizability w.r.t. CacheSem with DERemove/eviction-queue steps) as oracle; TLC-exhaustive CacheImpl (cache methods composed over an atomic map, every terminal history judged by CacheLin); real-code histories from a deterministic cooperative scheduler (dfs preemption-bounded, PCT) validated by TLC trace validation with searched linearization points",
                 text="model_checking: every distinct history the scheduler extracts from the real Cache/CacheOf over the scenario families (DeleteExpired/janitor-pass vs writers, lazy delete vs writers, read-modify-write racers on live/expired/absent keys, removers, Clear, callback swaps) is checked by TLC against the linearizable TTL-map machine; a final quiescent observation compares physical content.",
                 design_ref="5 C02, 2.3, 3.3, 3.7", note=CONC_NOTE),
-    "C03": dict(technique="TLA+ MapLin (linearizability w.r.t. MapSem); scheduler-enumerated interleavings at sync/atomic granularity with pinned bucket layout and real grow/shrink thresholds; TLC trace validation with searched linearization points",
+    "C03": dict(technique="TLA+ MapLin (linearizability w.r.t. MapSem) as oracle; TLC-exhaustive CLHT.tla (PlusCal, one label per sync step, annotation-free linearizability at terminal states, 16 design switches refuted); Trace_CLHT conformance of real step logs; scheduler-enumerated interleavings at sync/atomic granularity with pinned bucket layout and real grow/shrink thresholds; TLC trace validation with searched linearization points",
                 text="model_checking: histories of the real Map under dfs(2/3)-bounded and PCT schedules over families F1-F15 (slot reuse, update, append, grow, shrink, Clear, two resizers, delete||insert, racers, Range) are each decided by TLC against the linearizable map machine, including quiescent Load/Size/Range.",
                 design_ref="5 C03/C04, 2.3, 3.3", note=CONC_NOTE),
     "C04": dict(technique="as C03 on MapOf for key types string/int/struct with a pinned (colliding) hasher: same bucket and same 7-bit h2",
@@ -50,7 +50,7 @@ CLAIMED.update({
     "C13": dict(technique="scheduler-observed deadlock / fair-budget exhaustion on all families plus waiter/early-return/re-entrancy families; histories also validated by MapLin/CacheLin",
                 text="model_checking: every schedule explored (dfs preemption-bounded, PCT) must end with all threads returned; a run in which some thread is unfinished and none is enabled, or the fair step budget is exhausted, is a violation with a replayable schedule. Families force waiters to arrive around a resize, revisit a bucket after every early return and call back into the container from visitors and evicted callbacks.",
                 design_ref="5 C13", note=CONC_NOTE),
-    "C16": dict(technique="solo strategy: writer parked before each of its synchronisation operations, reader runs alone within 200 own steps; resulting history validated by MapLin/CacheLin with the writer's call still open",
+    "C16": dict(technique="CLHT_Freeze (TLC: with all other threads frozen at any reachable state the reader is never blocked and finishes within 40 own steps); solo strategy: writer parked before each of its synchronisation operations, reader runs alone within 200 own steps; resulting history validated by MapLin/CacheLin with the writer's call still open",
                 text="model_checking: for every writer kind x reader kind (same key, bucket mate, unrelated, absent) on the four containers, the writer is stopped after each possible number of own steps (exhaustive over its yield points) and the reader must complete alone; TLC checks the value returned is a linearizable one.",
                 design_ref="5 C16", note=CONC_NOTE),
     "C11": dict(technique="TLA+ MapSem/CacheSem as reference; trace validation of real runs under presize hints, one-chain layout pins, bulk threshold crossings, fresh processes; pairwise identical observations across configurations",
@@ -73,7 +73,7 @@ CLAIMED.update({
                 text="exploration with a model-checked oracle for histories: -race builds of the unmodified working tree run seeded parallel programs (2..64 goroutines, all four containers, janitor on a 1 ms interval, settings swapped concurrently, Range/Clear/resizes) - any race report with a frame in repository code or any corrupted payload is a violation; small native programs are stamped with an atomic counter and their histories decided by TLC. TLC cannot decide races of a compiled binary; the specification's part is the linearizability oracle and the access-mode table (drift only).",
                 design_ref="5 C14, 7.7",
                 note="Trusted: the Go race detector (reports only races on executions that occur), the harness's checksum discipline, TLC for the history oracle. Coverage is sampling of schedules by the OS scheduler under several GOMAXPROCS values and seeds."),
-    "C15": dict(technique="TLA+ CacheLife (janitor as ticker-driven pass, interval normalisation, exactly-once eviction per pass) with trace validation of real runs under a virtual ticker; lifecycle observation (goroutines, tickers, finalisers) after GC",
+    "C15": dict(technique="TLA+ CacheLife + TLC-exhaustive CacheLifeMC (janitor as ticker-driven pass, interval normalisation, exactly-once eviction per pass) with trace validation of real runs under a virtual ticker; lifecycle observation (goroutines, tickers, finalisers) after GC",
                 text="model_checking: for every constructor variant x interval {negative, 0, positive, default} x callback, a scripted life (stores, clock advances landing before/on/after ticks, accesses, manual DeleteExpired) is executed on the real code with the janitor's ticker driven by the virtual clock; Count and the callback ledger after every step are validated by TLC against CacheLife. Dropped caches must lose their janitor goroutine and ticker and let their contents be finalised (bounded GC wait, INCONCLUSIVE if the baseline finaliser does not run).",
                 design_ref="5 C15, 2.6",
                 note="Trusted: TLC, the virtual ticker shim, bounded real-time waits for the native janitor goroutine (5 s) and for GC/finalisers (20 s)."),
